@@ -12,8 +12,8 @@ from collections import defaultdict
 TRANSPARENT = re.compile(
     r'(std::path::Path::new$|::as_ref$|::as_mut$|::deref$|::deref_mut$|::clone$|::into$|::from$|::to_owned$|::borrow$|::borrow_mut$'
     r'|::to_path_buf$|::to_string$|::to_vec$|::as_str$|::as_slice$|::as_mut_slice$|::as_path$|::as_ptr$|::as_mut_ptr$|::as_bytes$'
-    r'|core::option::Option::<T>::(unwrap|expect|unwrap_or|unwrap_or_default|copied|cloned|as_deref|ok_or|ok_or_else|take|filter)$'
-    r'|core::result::Result::<T, E>::(unwrap|expect|unwrap_or|map_err|ok)$'
+    r'|core::option::Option::<T>::(unwrap|expect|unwrap_or|unwrap_or_default|copied|cloned|as_deref|ok_or|ok_or_else|take|filter|map|and_then)$'
+    r'|core::result::Result::<T, E>::(unwrap|expect|unwrap_or|map_err|ok|map|and_then)$'
     r'|Try>::branch$|::try_from$|::try_into$|::min$|::max$|::clamp$|::as_usize$'
     r'|::(saturating|checked|wrapping|overflowing)_(add|sub|mul|add_signed|neg|pow|shl)$|::abs_diff$|::unsigned_abs$|::abs$'
     r'|core::slice::<impl \[T\]>::len$|alloc::vec::Vec::<T, A>::len$|::len$'
@@ -236,6 +236,16 @@ def const_int(text):
         return 1
     m = re.match(r'^(-?\d+)(_[iu](8|16|32|64|128|size))?$', text or '')
     return int(m.group(1)) if m else None
+
+
+def op_int(op):
+    """integer value of a constant operand (literal, or a named constant evaluated by the driver)"""
+    if not op or op[0] != 'k':
+        return None
+    v = const_int(op[1])
+    if v is None and len(op) > 4 and op[4] is not None:
+        return int(op[4])
+    return v
 
 
 def op_place(op):
